@@ -32,9 +32,7 @@ def D_nonascii_before_expr (src : List Nat) (expr : Span) : Bool :=
 
 /-- D_lexer_char_span: an `EscapeChar { start, ch }` error whose offending character is
     multi-byte; its label `(start, start + 1)` ends inside that character. -/
-def D_lexer_char_span : LexErr → Bool
-  | .escapeChar _ (some c) => decide (128 ≤ c)
-  | _ => false
+def D_lexer_char_span (e : LexErr) : Bool := e.splitsChar
 
 /-- D_eof_span: the nested lexer of `query_start` reports `StringLiteral { start: 0 }` shifted by
     `pos + 1`, i.e. one past the opening quote: at the end of input that is `(len, len + 1)`. -/
@@ -165,6 +163,13 @@ example : WF [120, 32, 61, 32, 49] ⟨0, 1⟩ ∧ ([120, 32, 61, 32, 49] : List 
 example : (∀ b ∈ [34, 97, 92, 113], b < 128) ∧
     lexStringAt0 [34, 97, 92, 113] = .error (.escapeChar 3 (some 113)) ∧
     WF [34, 97, 92, 113] (LexErr.escapeChar 3 (some 113)).label := by
+  decide
+
+/-- `"é\q` : a non-ASCII source whose error is outside D_lexer_char_span: label `(4, 5)` is WF -/
+example : wfUtf8 [34, 195, 169, 92, 113] = true ∧
+    lexStringAt0 [34, 195, 169, 92, 113] = .error (.escapeChar 4 (some 113)) ∧
+    (LexErr.escapeChar 4 (some 113)).splitsChar = false ∧
+    WF [34, 195, 169, 92, 113] (LexErr.escapeChar 4 (some 113)).label := by
   decide
 
 /-- `s'ab` : unterminated raw string -/
